@@ -241,6 +241,18 @@ def run(ctx: Ctx):
         mf = ctx.func("vrp", f"VRPState.{mname}")
         tm = ast.unparse(mf.node)
         ctx.ob("C18-O4", "R18 table", mf, f"VRPState.{mname} computes the documented quantity of the state (term by term)", all(fr in tm for fr in frags), "", node=mf.node)
+        # no return bypasses the term-by-term computation: the accumulator (or the one summing expression) is returned,
+        # or the empty value for an empty route
+        mcfg = cfg_of(mf.node)
+        mgv = GuardView(mcfg)
+        for r in own_nodes(mf.node):
+            if not isinstance(r, ast.Return) or r.value is None:
+                continue
+            v = r.value
+            okr = isinstance(v, ast.Name) or (isinstance(v, ast.Call) and ast.unparse(v.func) == "sum")
+            if not okr and ast.unparse(v) in ("[]", "0.0", "0"):
+                okr = "F:route" in mgv.guard_atoms(mcfg.node_of(r), stable_only=False)
+            ctx.ob("C18-O4", "R14 GATE", mf, f"VRPState.{mname}: `{ast.unparse(r)[:60]}` is the accumulated quantity (or the empty value of an empty route)", okr, "a special-case return skips the rules the general computation applies to every stop (waiting for the window to open, service time, the leg back to the depot), so the quantity of such a route is not the documented one", node=r)
     # solve_vrptw hands back what alns publishes: the best state with the objective of that state
     al = ctx.func("lns", "alns")
     a_sites = result_sites(al)
@@ -265,6 +277,11 @@ def run(ctx: Ctx):
 from sa import mutate as M  # noqa: E402
 
 JS, VR = "solvor/job_shop.py", "solvor/vrp.py"
+
+
+def _v_single_stop_arrival_shortcut(tree):
+    g = M.find_func(tree, "VRPState.compute_arrival_times")
+    M.replace_stmt(g, lambda s: isinstance(s, ast.Assign) and M.src_is(s.targets[0], "times"), lambda s: M.stmts("if len(route) == 1:\n    return [self.dist(0, route[0])]") + [s])
 
 
 def _v_route_removal_original(tree):
@@ -374,6 +391,7 @@ def _v_zero_duration_fast_path(tree):
 VARIANTS = [
     M.Variant("zero-duration fast path skips the clock updates (seed C18-A)", JS, _v_zero_duration_fast_path, "C18-O1"),
 
+    M.Variant("compute_arrival_times answers a one-stop route without the waiting rule (seed C18-J)", VR, _v_single_stop_arrival_shortcut, "C18-O4"),
     M.Variant("route_removal clears one route only (original defect)", VR, _v_route_removal_original, "C18-O2"),
     M.Variant("sync_aware_insertion overwrites unassigned (original defect)", VR, _v_sync_overwrite, "C18-O2"),
     M.Variant("worst_removal edits its argument", VR, _v_no_copy, "C18-O2"),
